@@ -427,10 +427,11 @@ def targets(widths):
     return out
 
 
-def src_expr_of(src):
+def src_expr_of(src, shape="plain"):
     k = src[0]
     if is_runtime(src):
-        return "self.a"
+        return {"plain": "self.a", "or": "(self.a | self.a)", "add0": "(self.a + 0)", "fn": "tmp_of(self.a)",
+                "resize": "self.a.resize(%d)" % (src[1] if is_vec(src) else 0)}[shape]
     if k == "Null":
         return "Null"
     if k == "Full":
@@ -440,8 +441,35 @@ def src_expr_of(src):
     return '"%s"' % src[1]
 
 
+def input_type(src, shape="plain"):
+    """type of the input port `a` the source expression is built from"""
+    return (src[0], src[1] - 1) if shape == "resize" else src
+
+
+def shapes_for(src):
+    if not is_vec(src):
+        return ()
+    out = ["or", "fn"]
+    if src[0] in ("U", "S"):
+        out.append("add0")
+        if src[1] >= 2:
+            out.append("resize")
+    return tuple(out)
+
+
+def others_for(tgt):
+    out = [("Null",), ("Full",)]
+    if is_vec(tgt) and tgt[1] >= 2:
+        out += [("U", tgt[1] - 1), ("S", tgt[1] - 1)]
+    return out
+
+
+def mk(form, qual, src, tgt, root=None, shape="plain", other=None):
+    return {"form": form, "qual": qual, "src": src, "tgt": tgt, "root": root, "shape": shape, "other": other}
+
+
 def grid(tier, rng):
-    """-> list of dict(form, qual, src, tgt, root)"""
+    """-> list of cells (form, qual, src, tgt, root) with a plain source and a merge partner of the target type"""
     widths = WIDTHS
     cells = []
     for tgt in targets(widths):
@@ -453,36 +481,97 @@ def grid(tier, rng):
                     continue
                 if form == "port_out" and not rt:
                     continue
-                if form == "slice" and not is_vec(tgt):
+                if form in ("slice", "view") and not is_vec(tgt):
                     continue
                 if form == "elem" and tgt[0] != "Bit":
                     continue
-                roots = ROOTS if form in ("slice", "elem") else (None,)
+                roots = ROOTS if form in ("slice", "elem", "view") else (None,)
                 for qual in quals:
                     for root in roots:
-                        cells.append({"form": form, "qual": qual, "src": src, "tgt": tgt, "root": root})
+                        cells.append(mk(form, qual, src, tgt, root))
     if tier != "quick":
         # the integer range: to_integer of a 32 bit unsigned / 33 bit signed leaves the VHDL integer
         for src in (("U", 31), ("U", 32), ("S", 32), ("S", 33)):
             for form, (ctx, quals, _) in FORMS.items():
-                if form in ("decl_static", "slice", "elem"):
+                if form in ("decl_static", "slice", "elem", "view"):
                     continue
-                cells.append({"form": form, "qual": quals[0], "src": src, "tgt": ("Int",), "root": None})
+                cells.append(mk(form, quals[0], src, ("Int",)))
     return cells
 
 
+SHAPE_FORMS = (("decl_sig", "Signal"), ("decl_var", "Variable"), ("ilshift", "Port"))
+
+
+def ext_grid():
+    """expression temporaries as sources; merges whose other option is Null / Full / a narrower run-time value"""
+    cells = []
+    vec_src = [(k, n) for k in VEC for n in WIDTHS]
+    for form, qual in SHAPE_FORMS:
+        for src in vec_src:
+            for shape in shapes_for(src):
+                for tgt in targets(WIDTHS):
+                    cells.append(mk(form, qual, src, tgt, None, shape))
+    for form in MERGE_A + MERGE_B:
+        for tgt in targets(WIDTHS):
+            if not is_vec(tgt):
+                continue
+            for src in [("Bit",), ("Bool",), ("Int",)] + vec_src:
+                for other in others_for(tgt):
+                    cells.append(mk(form, "Port", src, tgt, None, "plain", other))
+    return cells
+
+
+def core_cells():
+    """always in the quick tier: the shapes in which a wrong extension / reinterpretation shows on small widths"""
+    cells = []
+    for form in ("slice", "view"):
+        for root in ROOTS:
+            for src, tgt in ((("S", 2), ("S", 3)), (("U", 2), ("U", 3)), (("U", 2), ("S", 3)), (("S", 3), ("S", 3)),
+                             (("U", 3), ("BV", 3)), (("BV", 3), ("S", 3))):
+                cells.append(mk(form, "Port", src, tgt, root))
+    for form, qual in SHAPE_FORMS[:2]:
+        for src, tgt in ((("U", 3), ("S", 3)), (("S", 3), ("U", 3)), (("U", 2), ("S", 3)), (("S", 2), ("S", 3)), (("U", 3), ("U", 3))):
+            for shape in shapes_for(src):
+                cells.append(mk(form, qual, src, tgt, None, shape))
+    for form in MERGE_A + MERGE_B:
+        for src, tgt in ((("U", 2), ("U", 3)), (("U", 2), ("S", 3)), (("S", 2), ("S", 3)), (("U", 3), ("U", 3))):
+            for other in others_for(tgt):
+                cells.append(mk(form, "Port", src, tgt, None, "plain", other))
+    return cells
+
+
+def cell_key(c):
+    return (c["form"], c["qual"], c["src"], c["tgt"], c["root"], c.get("shape", "plain"), c.get("other"))
+
+
 def cell_name(i, c):
-    return "p%05d_%s_%s_%s_%s%s" % (i, c["form"], c["qual"][0], tname(c["src"]), tname(c["tgt"]), c["root"] or "")
+    extra = ("_" + c["shape"] if c.get("shape", "plain") != "plain" else "") + ("_o" + tname(c["other"]) if c.get("other") else "")
+    return "p%05d_%s_%s_%s_%s%s%s" % (i, c["form"], c["qual"][0], tname(c["src"]), tname(c["tgt"]), c["root"] or "", extra)
+
+
+def item_of(k, c):
+    shape = c.get("shape", "plain")
+    return Item(k, c["form"], c["qual"], c["src"], c["tgt"], src_expr_of(c["src"], shape), c["root"], shape, c.get("other"))
 
 
 def cell_design(i, c):
     src = c["src"]
-    it = Item(0, c["form"], c["qual"], src, c["tgt"], src_expr_of(src), c["root"])
-    inputs = [("a", src)] if is_runtime(src) else []
-    text, ins, clocked = build_design([it], inputs)
+    inputs = [("a", input_type(src, c.get("shape", "plain")))] if is_runtime(src) else []
+    text, ins, clocked = build_design([item_of(0, c)], inputs)
     return {"name": cell_name(i, c), "source": text, "entity": "E"}
 
 
+def merge_doc(a, o, tgt):
+    """the statement for a merge of two options of different types (Conv.m3_doc)"""
+    def via(r):
+        return is_runtime(r) and doc_ok(a, r) and doc_ok(o, r) and doc_ok(r, tgt)
+    return (doc_ok(a, tgt) and doc_ok(o, tgt)) or via(a) or via(o)
+
+
+def cell_doc(c):
+    if c.get("other"):
+        return merge_doc(c["src"], c["other"], c["tgt"])
+    return doc_ok(c["src"], c["tgt"])
 
 
 # ----------------------------------------------------------------------------
@@ -494,8 +583,10 @@ PRE = common.COQ_HEADER + "From Cohdl Require Import Models.Conv.\nLocal Open Sc
 
 def coq_form(c):
     f = FORMS[c["form"]][2]
-    if c["form"] in ("slice", "elem"):
+    if c["form"] in ("slice", "elem", "view"):
         return f"({f} {KCOQ[c['root']]})"
+    if c.get("other"):
+        return "(%s %s)" % ("FMerge3A" if c["form"] in MERGE_A else "FMerge3B", coq_ty(c["other"]))
     return f
 
 
@@ -509,7 +600,7 @@ import os as _os
 # default: the tree with fix 77e5120 (declarations checked like assignments); C05_MODEL=predeclfix: the model of the tree before it
 ASSIGN_OK = "assign_ok" if _os.environ.get("C05_MODEL") == "predeclfix" else "assign_ok_declfix"
 TIE_PRED = "fun c => match c with (f, s, t, a) => Bool.eqb (%s f s t) a end" % ASSIGN_OK
-DOC_PRED = "fun c => match c with (f, s, t, a) => Bool.eqb (doc_ok s t) a end"
+DOC_PRED = "fun c => match c with (f, s, t, a) => Bool.eqb (doc_form f s t) a end"
 
 
 # ----------------------------------------------------------------------------
@@ -548,24 +639,29 @@ CORPUS = [
 def select_cells(ck):
     import os
     if os.environ.get("C05_CELLS") == "corpus":      # fast regression: the fixed corpus only
-        return [{"form": f, "qual": q, "src": s, "tgt": t, "root": r} for f, q, s, t, r in CORPUS]
+        return [mk(f, q, s_, t, r) for f, q, s_, t, r in CORPUS] + core_cells()
     allc = grid(ck.tier, ck.rng)
+    ext = ext_grid()
     if ck.tier != "quick":
-        return allc
-    key = lambda c: (c["form"], c["qual"], c["src"], c["tgt"], c["root"])
+        return allc + ext
     chosen = {}
-    for f, q, s, t, r in CORPUS:
-        chosen[(f, q, s, t, r)] = {"form": f, "qual": q, "src": s, "tgt": t, "root": r}
+    for f, q, s_, t, r in CORPUS:
+        c = mk(f, q, s_, t, r)
+        chosen[cell_key(c)] = c
+    for c in core_cells():
+        chosen.setdefault(cell_key(c), c)
     groups = {}
     for c in allc:
         groups.setdefault((c["form"], c["qual"], c["root"]), []).append(c)
     for g, cs in sorted(groups.items(), key=lambda kv: str(kv[0])):
         if g == ("ilshift", "Port", None):
-            pick = [c for c in cs if ck.rng.random() < 0.6]
+            pick = [c for c in cs if ck.rng.random() < 0.5]
         else:
-            pick = ck.rng.sample(cs, min(len(cs), 34))
+            pick = ck.rng.sample(cs, min(len(cs), 24))
         for c in pick:
-            chosen.setdefault(key(c), c)
+            chosen.setdefault(cell_key(c), c)
+    for c in ck.rng.sample(ext, 70):
+        chosen.setdefault(cell_key(c), c)
     return list(chosen.values())
 
 
@@ -594,7 +690,8 @@ def flat(t):
 
 def pack_key(c):
     """designs are packed by source; port connections apart (their text is known to be ill-typed when widths differ)"""
-    return (c["src"] if is_runtime(c["src"]) else ("lits",), "port" if c["form"] in ("port_in", "port_out") else "stmt")
+    return (c["src"] if is_runtime(c["src"]) else ("lits",), "port" if c["form"] in ("port_in", "port_out") else "stmt",
+            c.get("shape", "plain"))
 
 
 def alphabet_for(ins):
@@ -625,27 +722,42 @@ def t0_term(tgt, idx):
 def out_term(it: Item, idx, conv):
     s, t = coq_ty(it.src), coq_ty(it.tgt)
     x = f"(inp ins {idx['a']})" if is_runtime(it.src) else "0"
+    if it.shape == "resize":      # the source is the extension of the (one bit narrower) input
+        x = f"(conv_val {coq_ty(input_type(it.src, 'resize'))} {s} {x})"
     val = f"({conv} {s} {t} {x})"
-    if it.form in ("ifexp_a", "ret_a", "ifexp_b", "ret_b"):
-        first = it.form in ("ifexp_a", "ret_a")
-        t0 = t0_term(it.tgt, idx)
+    merge = it.form in MERGE_A + MERGE_B
+    if merge:
+        first = it.form in MERGE_A
         c = f"(inp ins {idx['c']} =? 1)"
+        if it.other is None:
+            t0 = t0_term(it.tgt, idx)
+        else:
+            o = coq_ty(it.other)
+            y = t0_term(it.other, idx) if is_runtime(it.other) else "0"
+            if conv == "conv_val":      # both options reach the target as the statement says (Conv.m3_val)
+                val = f"(m3_val {s} {s} {o} {t} {x})"
+                t0 = f"(m3_val {o} {s} {o} {t} {y})"
+            else:
+                t0 = f"(keep {o} {t} {y})"
         val = f"(if {c} then {val} else {t0})" if first else f"(if {c} then {t0} else {val})"
     if it.form == "slice":
         return f"(enc {coq_ty((it.root, it.tgt[1] + 2))} (2 * {val}))"
     if it.form == "elem":
         return f"(enc {coq_ty((it.root, 3))} (2 * {val}))"
-    if conv == "keep" and it.form not in ("ifexp_a", "ret_a", "ifexp_b", "ret_b"):
+    if it.form == "view":
+        return f"(enc {coq_ty((it.root, it.tgt[1]))} {val})"
+    if conv == "keep" and not merge:
         return f"(keepv {s} {t} {x})"
     return f"(enc {t} {val})"
 
 
 def make_pack(name, cells, conv="conv_val"):
-    """one design holding every cell (all of one form, qualifier and source)"""
+    """one design holding every cell (all of one source and source shape)"""
     src = cells[0]["src"]
-    items = [Item(k, c["form"], c["qual"], c["src"], c["tgt"], src_expr_of(c["src"]), c["root"]) for k, c in enumerate(cells)]
-    inputs = [("a", src)] if is_runtime(src) else []
-    assert all(c["src"] == src for c in cells) or not is_runtime(src)
+    shape = cells[0].get("shape", "plain")
+    items = [item_of(k, c) for k, c in enumerate(cells)]
+    inputs = [("a", input_type(src, shape))] if is_runtime(src) else []
+    assert all(c["src"] == src and c.get("shape", "plain") == shape for c in cells) or not is_runtime(src)
     text, ins, clocked = build_design(items, inputs, t0_mode="z")
     idx = {n: i for i, (n, t) in enumerate(ins)}
     outs = "[" + "; ".join(out_term(it, idx, conv) for it in items) + "]"
@@ -703,10 +815,17 @@ def emitted_cast(vhdl, cell):
 # run
 # ----------------------------------------------------------------------------
 def viol_key(c):
-    return {"form": c["form"], "src": kind_name(c["src"]), "tgt": kind_name(c["tgt"]), "rel": rel_class(c["src"], c["tgt"])}
+    k = {"form": c["form"], "src": kind_name(c["src"]), "tgt": kind_name(c["tgt"]), "rel": rel_class(c["src"], c["tgt"])}
+    if c.get("root"):
+        k["root"] = c["root"]
+    if c.get("shape", "plain") != "plain":
+        k["shape"] = c["shape"]
+    if c.get("other"):
+        k["other"] = kind_name(c["other"])
+    return k
 
 
-MERGE_FORMS = ("ifexp_a", "ifexp_b", "ret_a", "ret_b")
+MERGE_FORMS = MERGE_A + MERGE_B
 
 
 def defect_class(c):
@@ -733,11 +852,13 @@ def class_key(c, kind):
 
 
 def cell_json(c):
-    return {"form": c["form"], "qual": c["qual"], "src": list(c["src"]), "tgt": list(c["tgt"]), "root": c["root"]}
+    return {"form": c["form"], "qual": c["qual"], "src": list(c["src"]), "tgt": list(c["tgt"]), "root": c["root"],
+            "shape": c.get("shape", "plain"), "other": list(c["other"]) if c.get("other") else None}
 
 
 def cell_from_json(j):
-    return {"form": j["form"], "qual": j["qual"], "src": tuple(j["src"]), "tgt": tuple(j["tgt"]), "root": j["root"]}
+    return mk(j["form"], j["qual"], tuple(j["src"]), tuple(j["tgt"]), j["root"], j.get("shape", "plain"),
+              tuple(j["other"]) if j.get("other") else None)
 
 
 def pdiag(cases):
@@ -800,7 +921,7 @@ def run(ck: common.Check, replay=None):
     ck.sample({"cell": cell_json(cells[0]), "source": designs[0]["source"], "accepted": accepted[0]})
 
     # ---- (1a) the python rendering of the spec is the Coq doc_ok ----
-    pydoc = [doc_ok(c["src"], c["tgt"]) for c in cells]
+    pydoc = [cell_doc(c) for c in cells]
     bad_doc = common.coq_bad_indices(ck, "doc", PRE, TIE_TYPE, tie_terms(cells, pydoc), DOC_PRED)
     ck.obligation(not bad_doc)
     if bad_doc:
@@ -979,7 +1100,9 @@ def run(ck: common.Check, replay=None):
     # ---- (3) emitted cast text vs Conv.cast_emit ----
     terms, who = [], []
     for i, c in enumerate(cells):
-        if not accepted[i] or not ((c["form"] == "ilshift" and c["qual"] == "Port") or c["form"] in ("slice", "elem")):
+        if not accepted[i] or not ((c["form"] == "ilshift" and c["qual"] == "Port") or c["form"] in ("slice", "elem", "view")):
+            continue
+        if c.get("shape", "plain") != "plain":
             continue
         try:
             ce = emitted_cast(res[i]["vhdl"], c)
@@ -988,18 +1111,35 @@ def run(ck: common.Check, replay=None):
             report(class_key(c, "cast_text"), "emitted statement is outside the cast vocabulary / differs from Conv.cast_emit",
                    {"cell": cell_json(c), "error": str(e), "vhdl": res[i]["vhdl"]}, no_input=True)
             continue
-        vt = (c["root"], c["tgt"][1]) if c["form"] == "slice" else c["tgt"]
+        vt = (c["root"], c["tgt"][1]) if c["form"] in ("slice", "view") else c["tgt"]
         terms.append("(%s, %s, %s, %s)" % (coq_ty(vt), coq_ty(c["tgt"]), coq_ty(c["src"]), ce))
         who.append(i)
     if terms:
         badc = common.coq_bad_indices(ck, "cast", PRE, "cty * cty * cty * cexp", terms,
                                       "fun c => match c with (vt, tg, st, e) => cexp_eqb (cast_emit vt tg st) e end")
         ck.obligation(True, len(terms) - len(badc))
-        for b in badc:
+        # decide on the SPEC: is there a source value on which the observed cast misses the documented value?
+        FIND = ("Definition res_eqb (a b : res value) : bool := match a, b with Ok x, Ok y => value_eqb x y | Err _, Err _ => true "
+                "| _, _ => false end.\n"
+                "Definition cands (t : cty) : list Z := match t with CBit | CBool => [0; 1] | CBV n | CU n | CS n => "
+                "filter (fun v => (0 <=? v) && (v <? pow2 n)) [0; 1; 2; 3; pow2 (n - 1); pow2 (n - 1) + 1; pow2 n - 2; pow2 n - 1; pow2 (n - 1) - 1] "
+                "| CInteger => [-9; -1; 0; 1; 5; 300] | _ => [0] end.\n"
+                "Definition miss (c : cty * cty * cty * cexp) := match c with (vt, tg, st, e) => option_map (fun v => (v, ceval e (enc st v), "
+                "enc vt (conv_val st tg v))) (find (fun v => negb (res_eqb (ceval e (enc st v)) (Ok (enc vt (conv_val st tg v))))) (cands st)) end.\n")
+        badc = list(badc)[:12]
+        misses = common.coq_eval_terms(ck, "castmiss", PRE + FIND, ["miss %s" % terms[b] for b in badc]) if badc else []
+        for b, m in zip(badc, misses):
             c = cells[who[b]]
             ck.obligation(False)
-            report(class_key(c, "cast_text"), "emitted statement is outside the cast vocabulary / differs from Conv.cast_emit",
-                   {"cell": cell_json(c), "observed": terms[b]}, no_input=True)
+            found = m.strip().startswith("Some")
+            if found and pydoc[who[b]]:
+                report(class_key(c, "value_mismatch"),
+                       "the emitted cast differs from Conv.cast_emit and misses the documented value on a source value",
+                       {"cell": cell_json(c), "stage": "cast_text", "source": designs[who[b]]["source"], "observed_cast": terms[b],
+                        "input (source value, emitted cast gives, documented)": m})
+            else:
+                report(class_key(c, "cast_text"), "emitted statement is outside the cast vocabulary / differs from Conv.cast_emit",
+                       {"cell": cell_json(c), "observed": terms[b], "miss": m}, no_input=True)
         ck.cov["cast_texts_compared"] = len(terms)
 
     mark("cast_text")
@@ -1025,10 +1165,14 @@ def run(ck: common.Check, replay=None):
     ck.cov["undocumented_classes"] = len(undocumented)
     ck.cov["packed_designs"] = len(pdesigns)
     ck.cov["exhaustive"] = ck.tier != "quick"
-    ck.cov["rule"] = ("cell = (form, qualifier, source type, target type, root kind); quick = fixed corpus + 60% of the plain `<<=` grid + "
-                      "34 seeded cells per other (form, qualifier, root); thorough = the whole grid over widths {1,2,3,4,8}; every cell is "
-                      "distinct; packed designs = accepted documented cells of width <= 3 grouped by (form, qualifier, source), each a "
-                      "theorem over all source values")
+    ck.cov["rule"] = ("cell = (form, qualifier, source type, target type, root kind, source shape, other option of a merge); forms include "
+                      "typed views of a whole object / of a slice whose carrier has another kind, declarations, ports, if-expression / "
+                      "two-return / select_with merges; source shape = plain port or an expression temporary (x | x, x + 0, f(x), "
+                      "x.resize(n)); other option of a merge = a port of the target type, Null, Full or a narrower run-time value; "
+                      "quick = fixed corpus + 172 core cells (small widths of every new shape) + 50% of the plain `<<=` grid + 24 seeded "
+                      "cells per other (form, qualifier, root) + 70 seeded cells of the shape / other-option grid; thorough = the whole "
+                      "grid over widths {1,2,3,4,8} (about 23000 cells); every cell is distinct; packed designs = accepted documented "
+                      "cells of width <= 3 grouped by (source, shape), each a theorem over all source values (both paths of a merge)")
     ck.trusted += ["fail-closed VHDL reader", "Vhdl.Sem / Vhdl.NumStd", "Conv.doc_ok / Conv.conv_val as the rendering of the statement",
                    "generator -> source printer (harness/c05.py)"]
     ck.assumptions += ["widths {1,2,3,4,8}; value theorems for widths <= 3 (the Coq theorems C05_value_* cover all widths of the model)",
